@@ -1,6 +1,7 @@
 //! SysProbe checks: C50 (blueprint encapsulation), C49 (limit boundaries), C51 (component locks).
 use rv_common::*;
 
+mod c05;
 mod c49;
 mod c50;
 mod c51;
@@ -13,6 +14,7 @@ fn main() {
     let code = match args.prop.as_str() {
         "C50" => c50::run(&args),
         "C49" => c49::run(&args),
+        "C05" => c05::run(&args),
         "C51" => c51::run(&args),
         "smoke" => c50::smoke(&args),
         other => {
